@@ -96,6 +96,7 @@ class Base:
                 for k in SCHEMA[cls][0]:
                     if k != "name" and str(getattr(o, k) or "") != "":
                         scal.append([k, {"s": str(getattr(o, k))}])
+            if cls in SCHEMA:
                 for a in SCHEMA[cls][2]:
                     mem = [self.id_of[x.uuid] for x in getattr(o, a) if x.uuid in self.id_of]
                     if mem:
@@ -165,7 +166,7 @@ def to_decl(doc: list[dict], base: Base) -> list[dict]:
         return [item(y) for y in v["l"]] if "l" in v else val(v["v"])
 
     def syncobj(so):
-        d = {"find": findargs(so)}
+        d = {"find": decl.FindBy(findargs(so)) if so.get("fb") else findargs(so)}
         if so.get("pid") is not None:
             d["promise_id"] = so["pid"]
         if so.get("set"):
@@ -268,6 +269,8 @@ def render_impl(model, base: Base, promises: dict | None = None) -> dict:
             seen: dict[str, int] = {}
             for ch in getattr(o, a):
                 if ch.uuid in base.id_of:
+                    if ch.uuid not in tok and ch.uuid not in base.roots.values():
+                        walk(ch, f"b{base.id_of[ch.uuid]}")  # below base objects only new members are shown
                     continue
                 nm = str(getattr(ch, "name", "") or "")
                 k = seen.get(nm, 0)
@@ -289,6 +292,12 @@ def render_impl(model, base: Base, promises: dict | None = None) -> dict:
     for o in order:
         cls = type(o).__name__
         sc, rs, ls = SCHEMA.get(cls, ([], {}, {}))
+        if o.uuid in base.id_of and o.uuid not in base.roots.values():
+            lists = {a: [ref(x) for x in getattr(o, a) if x.uuid not in base.id_of] for a in ls}
+            lists = {a: l for a, l in lists.items() if l}
+            if lists:
+                objs[tok[o.uuid]] = {"cls": cls, "scal": {}, "lists": lists}
+            continue
         scal = {}
         for k in sc:
             v = getattr(o, k)
@@ -333,7 +342,11 @@ def render_model(ans: dict, base: Base) -> dict:
                 continue
             seen: dict[str, int] = {}
             for ch in ls.get(a, []):
-                if ch <= base.n or ch not in g:
+                if ch not in g:
+                    continue
+                if ch <= base.n:
+                    if ch not in tok and ch not in root_ids:
+                        walk(ch, f"b{ch}")
                     continue
                 nmv = scal_of(g[ch]).get("name", {"s": ""})
                 nm = nmv.get("s", "")
@@ -342,6 +355,7 @@ def render_model(ans: dict, base: Base) -> dict:
                 if ch not in tok:
                     walk(ch, _tok_path(t, a, nm, k))
 
+    root_ids = {base.root_id(r) for r in base.roots}
     for r in base.roots:
         walk(base.root_id(r), r)
 
@@ -358,6 +372,13 @@ def render_model(ans: dict, base: Base) -> dict:
         o = g[i]
         cls = o["cls"]
         sc, rs, ls = SCHEMA.get(cls, ([], {}, {}))
+        if i <= base.n and i not in root_ids:
+            lv = lists_of(o)
+            lists = {a: [ref(x) for x in lv.get(a, []) if x > base.n] for a in ls}
+            lists = {a: l for a, l in lists.items() if l}
+            if lists:
+                objs[tok[i]] = {"cls": cls, "scal": {}, "lists": lists}
+            continue
         sv = scal_of(o)
         scal = {}
         for k in sc:
